@@ -85,6 +85,8 @@ class Jet1:
             return (s ** (-int(p))).recip()
         if float(p) == 0.5:
             return s.sqrt()
+        if float(p) == 1.5:
+            return s * s.sqrt()
         raise core.HarnessError("jet pow %r" % p)
 
     def _chain(s, f, f1, f2):
@@ -198,6 +200,8 @@ class Jet2:
             return (s ** (-int(p))).recip()
         if float(p) == 0.5:
             return s.sqrt()
+        if float(p) == 1.5:
+            return s * s.sqrt()
         raise core.HarnessError("jet pow %r" % p)
 
     def sqrt(s):
